@@ -77,32 +77,51 @@ def status(x, y, rpos):
 def kemeny(candidate, dataset, scheme, detail=None):
     """Generalized Kemeny score: sum over input rankings and unordered pairs of candidate
     elements of the penalty of the pair's placement in the candidate given its status in the
-    input ranking.  `detail`, if given, is a dict filled with counts[(placement, status)]."""
+    input ranking.  `detail`, if given, is a dict filled with counts[(placement, status)].
+    (The twelve (placement, status) cells are counted as integers and priced once at the end.)"""
     B, T = scheme_fr(scheme)
     cpos = bucket_index(candidate)
     elems = list(cpos)
-    total = F(0)
-    rposs = [bucket_index(r) for r in dataset]
-    for i in range(len(elems)):
-        x = elems[i]
-        for j in range(i + 1, len(elems)):
-            y = elems[j]
-            cx, cy = cpos[x], cpos[y]
-            for rpos in rposs:
-                if cx < cy:
-                    s = status(x, y, rpos)
-                    total += B[s]
-                    key = ("B", s)
-                elif cx > cy:
-                    s = status(y, x, rpos)
-                    total += B[s]
-                    key = ("B", s)
+    cb = [cpos[e] for e in elems]
+    n = len(elems)
+    cnt_b = [0] * 6
+    cnt_t = [0] * 6
+    for r in dataset:
+        rpos = bucket_index(r)
+        rb = [rpos.get(e) for e in elems]
+        for i in range(n):
+            ci, ri = cb[i], rb[i]
+            for j in range(i + 1, n):
+                cj, rj = cb[j], rb[j]
+                # status of the pair taken in the order of the candidate (x = the one placed first)
+                if ci < cj:
+                    px, py, tied = ri, rj, False
+                elif ci > cj:
+                    px, py, tied = rj, ri, False
                 else:
-                    s = status(x, y, rpos)
-                    total += T[s]
-                    key = ("T", s)
-                if detail is not None:
-                    detail[key] = detail.get(key, 0) + 1
+                    px, py, tied = ri, rj, True
+                if px is None:
+                    st = 5 if py is None else 4
+                elif py is None:
+                    st = 3
+                elif px < py:
+                    st = 0
+                elif px > py:
+                    st = 1
+                else:
+                    st = 2
+                if tied:
+                    cnt_t[st] += 1
+                else:
+                    cnt_b[st] += 1
+    total = F(0)
+    for st in range(6):
+        total += B[st] * cnt_b[st] + T[st] * cnt_t[st]
+        if detail is not None:
+            if cnt_b[st]:
+                detail[("B", st)] = detail.get(("B", st), 0) + cnt_b[st]
+            if cnt_t[st]:
+                detail[("T", st)] = detail.get(("T", st), 0) + cnt_t[st]
     return total
 
 
